@@ -23,7 +23,7 @@ func init() {
 
 var c07Scope = []string{
 	"internal/language/tokenizer", "internal/language/compiler", "internal/language/bytecode", "internal/language/data", "internal/language/symbols",
-	"internal/language/builtins", "internal/language/parse", "internal/runtime",
+	"internal/builtins", "internal/language/parse", "internal/runtime", "internal/language/debugger", "internal/language/expressions", "internal/packages",
 }
 
 func c07InScope(path string) bool {
